@@ -41,11 +41,30 @@ def arg_named(t, name):
     return isinstance(t, tuple) and t[0] == "arg" and t[2] == name
 
 
-def peel_opt(t):
-    """strip value-preserving Option adaptors: x.copied() / x.cloned() / x.as_ref() / x.as_deref()"""
+def zero_test(c):
+    """(x, means_zero) when the bool term `c` tests an unsigned x against zero: x == 0, x != 0, x > 0, x <= 0, x < 1, x >= 1,
+    0 < x, 0 >= x, 0 == x ..."""
+    if not (isinstance(c, tuple) and c[0] == "bin" and c[1] in ("Eq", "Ne", "Lt", "Le", "Gt", "Ge")):
+        return None
+    op, l, r = c[1], c[2], c[3]
+    lr, rr = guards.rng(l), guards.rng(r)
+    if rr == (0, 0) and op in ("Eq", "Ne", "Gt", "Le"):
+        return l, op in ("Eq", "Le")
+    if rr == (1, 1) and op in ("Lt", "Ge"):
+        return l, op == "Lt"
+    if lr == (0, 0) and op in ("Eq", "Ne", "Lt", "Ge"):
+        return r, op in ("Eq", "Ge")
+    if lr == (1, 1) and op in ("Gt", "Le"):
+        return r, op == "Gt"
+    return None
+
+
+def peel_opt(t, variant_only=False):
+    """strip value-preserving Option adaptors: x.copied() / x.cloned() / x.as_ref() / x.as_deref(); with `variant_only` also
+    the adaptors that keep Some/None but change the payload (x.map(f), x.inspect(f))"""
+    names = ("copied", "cloned", "as_ref", "as_deref", "as_mut") + (("map", "inspect") if variant_only else ())
     t = strip_refs(t)
-    while isinstance(t, tuple) and t[0] == "call" and t[1].split("::")[-1] in ("copied", "cloned", "as_ref", "as_deref", "as_mut") \
-            and t[1].startswith("Option<") and t[3]:
+    while isinstance(t, tuple) and t[0] == "call" and t[1].split("::")[-1] in names and t[1].startswith("Option<") and t[3]:
         t = strip_refs(t[3][0])
     return t
 
@@ -878,7 +897,7 @@ def dedup_strings(an, rep):
         if neg:
             found = None
             for a in p.atoms():
-                if a[1][0] == "discr" and is_call(a[1][1], "State::get_string_by_id"):
+                if a[1][0] == "discr" and is_call(peel_opt(a[1][1], True), "State::get_string_by_id"):
                     found = walk.atom_variant(a)
             okk = len(lookups) == 1 and not stores and not reads
             if okk:
@@ -946,9 +965,9 @@ def ref_protocol(an, rep):
         zero = None
         for a in p.atoms():
             c = a[1]
-            if c[0] == "bin" and c[1] in ("Eq", "Ne") and "read_var_u32" in show(c[2]) and guards.rng(c[3]) == (0, 0):
+            if zero_test(c) and "read_var_u32" in show(zero_test(c)[0]):
                 tv = guards.truth(a[2])
-                zero = tv if c[1] == "Eq" else not tv
+                zero = tv if zero_test(c)[1] else not tv
         reads = called(p, "BinaryInput::read_var_u32")
         lookups = called(p, "State::get_ref_by_id")
         if zero is True:
@@ -959,7 +978,7 @@ def ref_protocol(an, rep):
         elif zero is False:
             found = None
             for a in p.atoms():
-                if a[1][0] == "discr" and is_call(a[1][1], "State::get_ref_by_id"):
+                if a[1][0] == "discr" and is_call(peel_opt(a[1][1], True), "State::get_ref_by_id"):
                     found = walk.atom_variant(a)
             okk = len(lookups) == 1 and "read_var_u32" in show(lookups[0][5][1])
             if found == "Some":
@@ -1092,9 +1111,9 @@ def sequence_reader(an, rep):
             c = a[1]
             if c[0] == "discr" and any(n == "KnownSize" for _, n in c[2]):
                 state = walk.atom_variant(a)
-            elif c[0] == "bin" and c[1] in ("Eq", "Ne") and "remaining" in show(c) and guards.rng(c[3]) == (0, 0):
+            elif zero_test(c) and "remaining" in show(zero_test(c)[0]):
                 tv = guards.truth(a[2])
-                zero = tv if c[1] == "Eq" else not tv
+                zero = tv if zero_test(c)[1] else not tv
             elif c[0] == "discr" and "<Option<T> as BinaryDeserializer>::deserialize" in show(c[1]):
                 nm = walk.atom_variant(a)
                 if nm in ("Some", "None"):
@@ -1158,11 +1177,11 @@ def sequence_writer(an, rep):
                 R.check("size_hint" in l and "size_hint" in r and l != r, b.key, "guard", "the exactness guard must compare the "
                         "lower with the upper bound of size_hint(): %s %s %s" % (l, c[1], r))
                 exact = tv if c[1] == "Eq" else (not tv)
-            elif c[0] == "call" and c[1].endswith("PartialEq>::eq") or (c[0] == "call" and c[1].endswith("::eq")):
+            elif c[0] == "call" and c[1].endswith(("::eq", "::ne")):
                 l, r = show(c[3][0]), show(c[3][1])
                 both = ("size_hint" in l and "size_hint" in r and l != r and ("Some" in l) != ("Some" in r))
                 R.check(both, b.key, "guard", "the exactness guard must compare upper with Some(lower): %s == %s" % (l, r))
-                exact = tv
+                exact = tv if c[1].endswith("::eq") else (not tv)
             elif c[0] == "discr":
                 v = walk.atom_variant(a)
                 if v == "None":
